@@ -1,5 +1,40 @@
 # Claim table read by tools/gen_manifest.py. Only implemented, armed and quiet checks go here.
 CLAIMS = {
+    "C03": dict(
+        text="Hazards of the geometry/container layer are enumerated from MIR and each gets an "
+             "obligation: ~160 overflow/division asserts (intervals + guard facts; definite when "
+             "operands are caller-controlled and unguarded), crop validation (NaN, sign, upper "
+             "bounds, axis), construction of cropped views only behind check_crop_box, unchecked "
+             "row/column slices equal the view's own rectangle, nearest-neighbour index clamp "
+             "adequacy, bounded unchecked reads of static tables, every unwrap classified, "
+             "precision tables without holes, target-feature closure of dispatcher arms; in the "
+             "thorough tier also NEON/WASM configurations and type-level witnesses (unsafe "
+             "set_cpu_extensions, sealed InnerPixel, private internals). Does NOT decide in-kernel "
+             "index bounds, accumulator ranges or allocation failure; UNDECIDED obligations are "
+             "listed in the evidence and are not proofs.",
+        note="Free-atom premise: arguments of the safe API are unconstrained and independent of "
+             "object state; user ImageView impls honour the unsafe trait contract. 32-bit usize "
+             "(wasm) arithmetic is informational only.",
+        technique="static analysis: abstract interpretation over MIR (symbolic values, "
+                  "edge-dominance guard facts, intervals, call-site parameter ranges) + "
+                  "compile-fail witnesses",
+        witness=True,
+    ),
+    "C04": dict(
+        text="Validator obligations written from the property and checked on the Ok paths of "
+             "each constructor for all inputs: CroppedSrcImageView::crop establishes not-NaN, "
+             ">= 0 and same-axis upper bounds for all four fields; check_crop_box bounds "
+             "left+width / top+height without a wrapping sum; the six buffer-backed constructors "
+             "compare len with a width*height(*size) product that cannot wrap and check alignment; "
+             "from_buffer variants go through the alignment helper (head must be empty); every "
+             "aggregate of a cropped view is dominated by the success edge of check_crop_box with "
+             "matching field roles; all arithmetic asserts of crop_box.rs and images/*.rs. The "
+             "converse (nothing inside is rejected) is only covered through the exact forms "
+             "recognised; unrecognised forms become UNDECIDED.",
+        note="Accepted fact forms are enumerated in fircheck/engines/validators.py.",
+        technique="static analysis: guard-fact entailment on Ok-return paths (MIR), closure "
+                  "inlining for checked_mul/map_or, dominance of constructors by validators",
+    ),
     "C05": dict(
         text="Decides, for all paths of 25 entry points and all 54 per-format trait "
              "implementations in every build configuration: each non-error, non-zero-size path "
